@@ -4,7 +4,7 @@ import vlib, histlib
 def run(res, tier, seed, replay):
     res.cov["rule"] = ("real: random histories with many lifetimes (up to 12 quick / 60 thorough) and 0-4 installs per lifetime over repeated targets and all kinds; interposed mmap/munmap: every munmap must name a live mapping "
                        "the injector obtained, with its own length, exactly once; no trampoline is mapped after a scope exit; anonymous rwx lines of /proc/self/maps equal before/after; the multiset of mmap/munmap events per "
-                       "segment equals the model's; distinct = distinct (lifetimes, op-kind set, repeated-target flag)")
+                       "segment equals the model's; plus one history per kind of target PLACEMENT in synthetic code arenas (page-aligned entry, page-straddling, low address, jmp-stub entry, odd alignments, trampoline forced to either end of the window, fake at the +-2 GiB edge); distinct = distinct (lifetimes, op-kind set, repeated-target flag)")
     res.cov["trusted_base"] = vlib.TRUSTED_COMMON + ["harness/real interposers and /proc/self/maps parser"]
     res.assumptions = ["only installations that succeed or fail for lack of memory are claimed leak-free (a failing mprotect leaks by construction; reported by the model as r_leaked)"]
     vlib.proof_stage(res, "C12", thorough=(tier == "thorough"))
@@ -25,3 +25,6 @@ def run(res, tier, seed, replay):
             lts.append(ops)
         cyc.append((f"c{i} r0,r1,r2,b0,fk0,fk1,fk2,fk3 " + "|".join(",".join(o) if o else "-" for o in lts), lts))
     histlib.check_histories(res, "c12", 40 if tier == "quick" else 1500, seed + 12, "maps", max_lifetimes=3, extra_lines=histlib.CORPUS + cyc)
+    # every kind of target placement (page-aligned, straddling, low, forwarding stub, every alignment, deterministic trampoline at the window's ends, fake at the +-2 GiB edge)
+    import arenalib as _al, random as _rnd
+    histlib.check_histories(res, "c12", 0, seed + 120, "maps", extra_lines=_al.placement_suite(_rnd.Random(seed + 120), "pl", tier))
